@@ -10,4 +10,6 @@ import SsqlVerif.Props.C15
 #print axioms C15.cep_partition_isolation
 #print axioms C15.valid_match_explored
 #print axioms C15.cep_complete_longest
+#print axioms C15.reference_matcher_exact
+#print axioms C15.reference_matcher_sound
 #print axioms C15.facts_cep
